@@ -97,7 +97,11 @@ Definition rl_case_ok (c : rlcase) : bool :=
 
 (* [blocking = false]: the code — closeNoNotify tries the write lock and, if a
    writer holds it, only sets the abort flag.  [blocking = true]: a close path
-   that waits for the lock on the serve goroutine (what must not be there). *)
+   that waits for the lock on the serve goroutine (what must not be there).
+   [escape = false]: the code after 02a6c9c — the close request is answered
+   whatever the writer's state.  [escape = true]: the pinned design, in which
+   the stale error of an earlier failed data packet, returned by the flush,
+   escaped from the close handler and ended Session.Serve. *)
 
 Inductive wpc :=
 | WIdle
@@ -110,7 +114,7 @@ Inductive vpc :=
 | VClose           (* close request: closeNoNotify, before the lock attempt *)
 | VFlush           (* lock obtained: flushing what is buffered *)
 | VBlocked         (* waiting for writeLock on the serve goroutine *)
-| VEnded.          (* the close handler returned the writer's stale error: Serve has returned *)
+| VEnded.          (* pinned design: the close handler returned the writer's stale error, Serve has returned *)
 
 Record iwstate := mkiw {
   iw_w : wpc; iw_v : vpc;
@@ -134,7 +138,7 @@ Inductive iwlabel :=
 Definition writer_holds (s : iwstate) : bool :=
   match iw_w s with WHold | WWait => true | _ => false end.
 
-Definition iw_step (blocking : bool) (s : iwstate) (l : iwlabel) : option iwstate :=
+Definition iw_step (blocking escape : bool) (s : iwstate) (l : iwlabel) : option iwstate :=
   match l with
   | WStart =>
       match iw_w s, iw_v s with
@@ -186,9 +190,9 @@ Definition iw_step (blocking : bool) (s : iwstate) (l : iwlabel) : option iwstat
       end
   | VFlushDone =>
       match iw_v s with
-      | VFlush => if iw_broken s   (* writeBuf.Flush returns the sticky error; the handler returns it *)
+      | VFlush => if escape && iw_broken s   (* writeBuf.Flush returns the sticky error *)
                   then Some (mkiw (iw_w s) VEnded (iw_aborted s) (iw_closed s) true)
-                  else Some (mkiw (iw_w s) VIdle (iw_aborted s) true false)
+                  else Some (mkiw (iw_w s) VIdle (iw_aborted s) true (iw_broken s))
       | _ => None
       end
   end.
@@ -201,7 +205,7 @@ Definition vpc_code (p : vpc) : nat :=
 Record iwcase := mkiwcase { wc_trace : list iwlabel; wc_w : nat; wc_v : nat; wc_closed : bool }.
 
 Definition iw_case_ok (c : iwcase) : bool :=
-  match run (iw_step false) iw_init (wc_trace c) with
+  match run (iw_step false false) iw_init (wc_trace c) with
   | Some s => Nat.eqb (wpc_code (iw_w s)) (wc_w c) && Nat.eqb (vpc_code (iw_v s)) (wc_v c) &&
               Bool.eqb (iw_closed s) (wc_closed c)
   | None => false
